@@ -229,3 +229,166 @@ func UniqueCase(r *core.Run, rel, fn, implRel string) {
 		}
 	}
 }
+
+// ConcreteReturns computes the concrete (non-interface) types that result
+// #idx of rel.fn can hold, following returns of calls to module functions and
+// locals assigned from such calls. Unresolvable returns are reported in unk.
+func ConcreteReturns(r *core.Run, rel, fn string, idx int) (out map[string]bool, unk []string) {
+	out = map[string]bool{}
+	seen := map[string]bool{}
+	var visit func(rel, fn string, idx int)
+	visit = func(rel, fn string, idx int) {
+		key := fmt.Sprintf("%s.%s#%d", rel, fn, idx)
+		if seen[key] {
+			return
+		}
+		seen[key] = true
+		fd, pk := r.P.FuncDecl(rel, fn)
+		if fd == nil {
+			unk = append(unk, key+" (not found)")
+			return
+		}
+		info := pk.TypesInfo
+		var resolve func(e ast.Expr)
+		resolve = func(e ast.Expr) {
+			e = core.Unparen(e)
+			if core.IsNilIdent(info, e) {
+				return
+			}
+			t := info.TypeOf(e)
+			if t == nil {
+				unk = append(unk, core.ExprStr(e))
+				return
+			}
+			if tup, ok := t.(*types.Tuple); ok {
+				t = tup.At(idx).Type()
+			}
+			if _, isIface := t.Underlying().(*types.Interface); !isIface {
+				out[core.TypeStr(t)] = true
+				return
+			}
+			switch x := e.(type) {
+			case *ast.CallExpr:
+				if f := core.CalleeFunc(info, x); f != nil && f.Pkg() != nil && core.IsSource(f.Pkg().Path()) {
+					name := f.Name()
+					if sig := f.Type().(*types.Signature); sig.Recv() != nil {
+						if n := core.NamedOf(sig.Recv().Type()); n != nil {
+							name = n.Obj().Name() + "." + name
+						}
+					}
+					visit(strings.TrimPrefix(f.Pkg().Path(), core.Module+"/"), name, 0)
+					return
+				}
+				unk = append(unk, core.ExprStr(e))
+			case *ast.Ident:
+				// assignments to the identifier
+				obj := info.Uses[x]
+				found := false
+				ast.Inspect(fd.Body, func(n ast.Node) bool {
+					as, ok := n.(*ast.AssignStmt)
+					if !ok {
+						return true
+					}
+					for i, l := range as.Lhs {
+						li, ok := l.(*ast.Ident)
+						if !ok || (info.Defs[li] != obj && info.Uses[li] != obj) {
+							continue
+						}
+						found = true
+						if len(as.Rhs) == len(as.Lhs) {
+							resolve(as.Rhs[i])
+						} else if len(as.Rhs) == 1 {
+							if c, ok := as.Rhs[0].(*ast.CallExpr); ok {
+								if f := core.CalleeFunc(info, c); f != nil && f.Pkg() != nil && core.IsSource(f.Pkg().Path()) {
+									name := f.Name()
+									if sig := f.Type().(*types.Signature); sig.Recv() != nil {
+										if n := core.NamedOf(sig.Recv().Type()); n != nil {
+											name = n.Obj().Name() + "." + name
+										}
+									}
+									visit(strings.TrimPrefix(f.Pkg().Path(), core.Module+"/"), name, i)
+									continue
+								}
+							}
+							unk = append(unk, core.ExprStr(as.Rhs[0]))
+						}
+					}
+					return true
+				})
+				if !found {
+					unk = append(unk, x.Name)
+				}
+			default:
+				unk = append(unk, core.ExprStr(e))
+			}
+		}
+		ast.Inspect(fd.Body, func(n ast.Node) bool {
+			if _, isLit := n.(*ast.FuncLit); isLit {
+				return false
+			}
+			ret, ok := n.(*ast.ReturnStmt)
+			if !ok || len(ret.Results) == 0 {
+				return true
+			}
+			if len(ret.Results) == 1 && idx > 0 {
+				resolve(ret.Results[0])
+				return true
+			}
+			if idx < len(ret.Results) {
+				resolve(ret.Results[idx])
+			}
+			return true
+		})
+	}
+	visit(rel, fn, idx)
+	return out, unk
+}
+
+// ProducerConsumer arms R-EXH/X3: every concrete type the producer can return
+// has a case in the (first) type switch of the consumer.
+func ProducerConsumer(r *core.Run, prodRel, prodFn string, idx int, consRel, consFn string) {
+	r.Rule("R-EXH/X3", "every concrete type that can flow out of the producer (followed through returned calls and locals) has a case in the consumer's type switch; unresolvable producer returns are reported")
+	types_, unk := ConcreteReturns(r, prodRel, prodFn, idx)
+	fd, pk := r.P.FuncDecl(consRel, consFn)
+	if fd == nil {
+		r.Fatal("anchor: %s.%s not found", consRel, consFn)
+		return
+	}
+	info := pk.TypesInfo
+	covered := map[string]bool{}
+	var ts *ast.TypeSwitchStmt
+	ast.Inspect(fd.Body, func(n ast.Node) bool {
+		if t, ok := n.(*ast.TypeSwitchStmt); ok && ts == nil {
+			ts = t
+		}
+		return true
+	})
+	if ts == nil {
+		r.Fatal("%s.%s: no type switch", consRel, consFn)
+		return
+	}
+	for _, cl := range ts.Body.List {
+		for _, e := range cl.(*ast.CaseClause).List {
+			covered[core.TypeStr(info.TypeOf(e))] = true
+		}
+	}
+	var names []string
+	for t := range types_ {
+		names = append(names, t)
+	}
+	sort.Strings(names)
+	for _, t := range names {
+		o := r.Add("R-EXH/X3", fmt.Sprintf("%s.%s → %s.%s | %s", prodRel, prodFn, consRel, consFn, t), ts.Pos(), "type "+t+" produced by "+prodFn)
+		if covered[t] {
+			o.Auto("has a case")
+		} else {
+			o.Fail("%s can return %s but %s has no case for it", prodFn, t, consFn)
+		}
+	}
+	for _, u := range unk {
+		r.Add("R-EXH/X3", fmt.Sprintf("%s.%s | unresolved return %s", prodRel, prodFn, u), fd.Pos(), "unresolved producer return "+u).Fail("cannot determine the concrete types this return can hold")
+	}
+	if len(names) == 0 {
+		r.Fatal("R-EXH/X3: producer %s.%s yields no concrete types", prodRel, prodFn)
+	}
+}
